@@ -13,6 +13,9 @@ and, after every action, on every configured port:
     a failing start raises OSError and leaves is_running and the listening set as before the call;
     stop never raises; a body exception propagates and the bridge is stopped.
 A breadth-first search over (model state, bridge object fingerprint) runs to a fixpoint.
+In-flight datagrams: one user task starts the bridge, sends 1..3 broadcasts, lets k = 0..8 (thorough 16)
+loop cycles pass and stops (or leaves the context); the deliveries made by the time stop returned are
+final - every k is executed, so a delivery deferred past stop by any number of cycles is seen.
 """
 import itertools
 import socket
@@ -309,6 +312,58 @@ def bfs(nports, res):
     return True, len(seen), last
 
 
+def inflight(res, nports, k, how, ndg):
+    """One user task: start, send ndg broadcasts, let k loop cycles pass, stop (or leave the context);
+    whatever was delivered by the time stop returned is final - no callback may come later."""
+    import asyncio
+
+    set_zone("UTC")
+    case = {"part": "inflight", "nports": nports, "k": k, "how": how, "ndg": ndg}
+    with Clock(1_700_000_000.0), Capture():
+        bw = BridgeWorld(nports)
+        seen = {}
+        try:
+            async def user():
+                br = bw.bridge
+                if how == "stop":
+                    await br.start()
+                    for j in range(ndg):
+                        bw.send(bw.ports[j % nports], B.encode("V4", name="f%d" % j))
+                    for _ in range(k):
+                        await asyncio.sleep(0)
+                    await br.stop()
+                else:
+                    async with br:
+                        for j in range(ndg):
+                            bw.send(bw.ports[j % nports], B.encode("V4", name="f%d" % j))
+                        for _ in range(k):
+                            await asyncio.sleep(0)
+                seen["at_return"] = [d.name for d in bw.calls]
+                for _ in range(8):
+                    await asyncio.sleep(0)
+                seen["later"] = [d.name for d in bw.calls]
+
+            out = bw.run(user())
+            bw.settle()
+            final = [d.name for d in bw.calls]
+            res.case(("inflight", nports, k, how, ndg))
+            res.traces += 1
+            res.outcome(("inflight", len(seen.get("at_return", []))))
+            if out[0] != "ok":
+                res.violation("inflight-scenario-fails", case, f"start/send/{how} with {k} loop cycles in between -> {out[0]} {out[1]!r}")
+            elif seen["later"] != seen["at_return"] or final != seen["at_return"]:
+                res.violation("callback-after-stop", case,
+                              f"{ndg} broadcast(s) sent, {k} loop cycle(s) later {how} returned with deliveries {seen['at_return']}; afterwards the callback log grew to {final}",
+                              seen["at_return"], final)
+            elif len(final) != len(set(final)):
+                res.violation("delivery-duplicated", case, f"deliveries {final}")
+            for i, pnum in enumerate(bw.ports):
+                if not can_bind(pnum):
+                    res.violation("port-left-bound", case, f"port #{i} still bound after {how} returned and the loop cycled")
+        finally:
+            bw.close()
+
+
 def plan(tier):
     return [(1, 4 if tier == "quick" else 6), (2, 4 if tier == "quick" else 6)] + ([(3, 5)] if tier == "thorough" else [(3, 3)])
 
@@ -324,6 +379,7 @@ def jobs(tier, seed):
     for nports in (1, 2):
         js.append({"part": "bfs", "nports": nports})
     js.append({"part": "four"})
+    js.append({"part": "inflight", "tier": tier})
     return js
 
 
@@ -332,6 +388,14 @@ def run_job(job):
     if job["part"] == "bfs":
         closed, n, d = bfs(job["nports"], res)
         res.add("bfs", (job["nports"], closed, n, d))
+        return res
+    if job["part"] == "inflight":
+        for nports in (1, 2):
+            for k in range(0, 9 if job["tier"] == "quick" else 17):
+                for how in ("stop", "ctx"):
+                    for ndg in (1, 2, 3):
+                        inflight(res, nports, k, how, ndg)
+        res.sample({"part": "inflight", "nports": 1, "k": 2, "how": "stop", "ndg": 1})
         return res
     if job["part"] == "four":
         # one four-port run (the bridge's default configuration has four ports)
@@ -359,6 +423,9 @@ def run_job(job):
 
 def replay(case):
     res = Res()
+    if case.get("part") == "inflight":
+        inflight(res, case["nports"], case["k"], case["how"], case["ndg"])
+        return res.violations
     run_history(case["nports"], case["actions"], res, case, graph=False)
     return res.violations
 
